@@ -4,7 +4,7 @@
   `ProbeW.greedyLoopW (ProbeW.dhpProbeW … true …)`, and the two loops (instances of `GenParse.greedy_generic`).
 
   Shape independence: no generated loop function is named (see the header of GenBDHPParseLemmas); the two greedy loops
-  are `callee_loop% bdhp_Parse 0/1`; the step lemmas compute the generated side in a hypothesis `hG : … = G`
+  are `callee_loop% bdhp_Parse_nilable 0/1`; the step lemmas compute the generated side in a hypothesis `hG : … = G`
   ("continuation style"), every `if` is decided by omega from facts in the spelling of the model (`decide_if`), the
   inner loops and the extension blocks are taken from `hG` by unification, extracted helpers are unfolded generically
   (`unfold_helpers`), the final call of the loop is compared up to integer arithmetic (`loop_congr`).
@@ -56,13 +56,13 @@ theorem loop5_step (grow : Nat → Nat → Nat) (lcs : Slice → Slice → Int) 
     ∃ r, ProbeW.dhpProbeW ws mmN E1 E2 true (A.drop L) (absB s) (A.take L) i li = some r ∧
       ∃ t1', TOK s.doubleHashDictionary.h1.shift t1' ∧
         r.1 = ⟨ofHashT s.doubleHashDictionary.h1 t1', ofHash s.doubleHashDictionary.h2⟩ ∧
-        (callee_loop% bdhp_Parse 1) grow lcs e1I { arr := A, len := E1 + 7 } { arr := A, len := L } mm (fuel + 1) ia s blk lia =
+        (callee_loop% bdhp_Parse_nilable 1) grow lcs e1I { arr := A, len := E1 + 7 } { arr := A, len := L } mm (fuel + 1) ia s blk lia =
           (match r.2 with
           | none =>
-            (callee_loop% bdhp_Parse 1) grow lcs e1I { arr := A, len := E1 + 7 } { arr := A, len := L } mm fuel (ia + 1)
+            (callee_loop% bdhp_Parse_nilable 1) grow lcs e1I { arr := A, len := E1 + 7 } { arr := A, len := L } mm fuel (ia + 1)
               (setTB s t1' s.doubleHashDictionary.h2.table) blk lia
           | some (st, k, o) =>
-            (callee_loop% bdhp_Parse 1) grow lcs e1I { arr := A, len := E1 + 7 } { arr := A, len := L } mm fuel
+            (callee_loop% bdhp_Parse_nilable 1) grow lcs e1I { arr := A, len := E1 + 7 } { arr := A, len := L } mm fuel
               ((st + k : Nat) : Int) (setTB s t1' s.doubleHashDictionary.h2.table)
               { Sequences := blk.Sequences ++ [seqRep { litLen := st - li, matchLen := k, offset := o }],
                 Literals := Slice.append grow blk.Literals ((A.drop li).take (st - li)) }
@@ -80,7 +80,7 @@ theorem loop5_step (grow : Nat → Nat → Nat) (lcs : Slice → Slice → Int) 
   obtain ⟨ent, t1, hidx, hset, ht1, hget, hofs⟩ := table_probe s.doubleHashDictionary.h1 s.doubleHashDictionary.h1.table
     w1.tok w1.sh1 w1.sh2 y ia i hia (by omega)
   -- the generated side: `G`, computed step by step in `hG`
-  generalize hG : (callee_loop% bdhp_Parse 1) grow lcs e1I { arr := A, len := E1 + 7 } { arr := A, len := L } mm (fuel + 1) ia s blk lia = G
+  generalize hG : (callee_loop% bdhp_Parse_nilable 1) grow lcs e1I { arr := A, len := E1 + 7 } { arr := A, len := L } mm (fuel + 1) ia s blk lia = G
   unfold_head at hG
   unfold_helpers at hG
   decide_if at hG
@@ -180,13 +180,13 @@ theorem loop1_step (grow : Nat → Nat → Nat) (lcs : Slice → Slice → Int) 
     ∃ r, ProbeW.dhpProbeW ws mmN E1 E2 true (A.drop L) (absB s) (A.take L) i li = some r ∧
       ∃ t1' t2', TOK s.doubleHashDictionary.h1.shift t1' ∧ TOK s.doubleHashDictionary.h2.shift t2' ∧
         r.1 = ⟨ofHashT s.doubleHashDictionary.h1 t1', ofHashT s.doubleHashDictionary.h2 t2'⟩ ∧
-        (callee_loop% bdhp_Parse 0) grow lcs e2I { arr := A, len := E1 + 7 } { arr := A, len := L } mm e1I (fuel + 1) ia s blk lia =
+        (callee_loop% bdhp_Parse_nilable 0) grow lcs e2I { arr := A, len := E1 + 7 } { arr := A, len := L } mm e1I (fuel + 1) ia s blk lia =
           (match r.2 with
           | none =>
-            (callee_loop% bdhp_Parse 0) grow lcs e2I { arr := A, len := E1 + 7 } { arr := A, len := L } mm e1I fuel (ia + 1)
+            (callee_loop% bdhp_Parse_nilable 0) grow lcs e2I { arr := A, len := E1 + 7 } { arr := A, len := L } mm e1I fuel (ia + 1)
               (setTB s t1' t2') blk lia
           | some (st, k, o) =>
-            (callee_loop% bdhp_Parse 0) grow lcs e2I { arr := A, len := E1 + 7 } { arr := A, len := L } mm e1I fuel
+            (callee_loop% bdhp_Parse_nilable 0) grow lcs e2I { arr := A, len := E1 + 7 } { arr := A, len := L } mm e1I fuel
               ((st + k : Nat) : Int) (setTB s t1' t2')
               { Sequences := blk.Sequences ++ [seqRep { litLen := st - li, matchLen := k, offset := o }],
                 Literals := Slice.append grow blk.Literals ((A.drop li).take (st - li)) }
@@ -207,7 +207,7 @@ theorem loop1_step (grow : Nat → Nat → Nat) (lcs : Slice → Slice → Int) 
   obtain ⟨ent1, t1, hidx1, hset1, ht1, hget1, hofs1⟩ := table_probe s.doubleHashDictionary.h1 s.doubleHashDictionary.h1.table
     w1.tok w1.sh1 w1.sh2 y ia i hia (by omega)
   -- the generated side: `G`, computed step by step in `hG`
-  generalize hG : (callee_loop% bdhp_Parse 0) grow lcs e2I { arr := A, len := E1 + 7 } { arr := A, len := L } mm e1I (fuel + 1) ia s blk lia = G
+  generalize hG : (callee_loop% bdhp_Parse_nilable 0) grow lcs e2I { arr := A, len := E1 + 7 } { arr := A, len := L } mm e1I (fuel + 1) ia s blk lia = G
   unfold_head at hG
   unfold_helpers at hG
   decide_if at hG
@@ -376,9 +376,9 @@ theorem loops_eq (grow : Nat → Nat → Nat) (lcs : Slice → Slice → Int) (h
     ∃ (st1 st' : LoopSt Hash2) (s1 : Gen.bdhp) (blk1 : Block') (t1 t2 : GSlice hashEntry) (blk' : Block'),
       ProbeW.greedyLoopW (ProbeW.dhpProbeW ws mmN E1 e2I.toNat true (A.drop L)) (A.take L) E1
         { dict := absB s, i := W, litIndex := W, seqs := [], lits := [] } = some st' ∧
-      (callee_loop% bdhp_Parse 0) grow lcs e2I { arr := A, len := E1 + 7 } { arr := A, len := L } mm e1I fuel (W : Int) s blk (W : Int) =
+      (callee_loop% bdhp_Parse_nilable 0) grow lcs e2I { arr := A, len := E1 + 7 } { arr := A, len := L } mm e1I fuel (W : Int) s blk (W : Int) =
         Res.ok ((st1.i : Int), s1, blk1, (st1.litIndex : Int)) ∧
-      (callee_loop% bdhp_Parse 1) grow lcs e1I { arr := A, len := E1 + 7 } { arr := A, len := L } mm fuel (st1.i : Int) s1 blk1
+      (callee_loop% bdhp_Parse_nilable 1) grow lcs e1I { arr := A, len := E1 + 7 } { arr := A, len := L } mm fuel (st1.i : Int) s1 blk1
         (st1.litIndex : Int) = Res.ok ((st'.i : Int), setTB s t1 t2, blk', (st'.litIndex : Int)) ∧
       TOK s.doubleHashDictionary.h1.shift t1 ∧ TOK s.doubleHashDictionary.h2.shift t2 ∧
       st'.dict = ⟨ofHashT s.doubleHashDictionary.h1 t1, ofHashT s.doubleHashDictionary.h2 t2⟩ ∧
@@ -391,7 +391,7 @@ theorem loops_eq (grow : Nat → Nat → Nat) (lcs : Slice → Slice → Int) (h
   -- the first loop
   obtain ⟨st1, s1, blk1, hg1, hl1, ⟨u1, u2, rfl, hu1, hu2⟩, hd1, hE2i, hiL1, hli1, hsq1, hlt1, hswf1, hW1⟩ :=
     greedy_generic (ProbeW.dhpProbeW ws mmN E1 e2I.toNat true (A.drop L))
-      ((callee_loop% bdhp_Parse 0) grow lcs e2I { arr := A, len := E1 + 7 } { arr := A, len := L } mm e1I) absB (InvB s)
+      ((callee_loop% bdhp_Parse_nilable 0) grow lcs e2I { arr := A, len := E1 + 7 } { arr := A, len := L } mm e1I) absB (InvB s)
       grow A L E1 e2I.toNat (E1 + 1) 0 hE2 hEL hLA
       (fun fuel ia s blk lia h => by unfold_head; rw [if_neg (by omega)])
       (fun fuel i li ia lia s' blk hinv hia hlia hlo hi hli hf => by
@@ -407,7 +407,7 @@ theorem loops_eq (grow : Nat → Nat → Nat) (lcs : Slice → Slice → Int) (h
   obtain ⟨w1', w2'⟩ := hokOf u1 u2 hu1 hu2
   obtain ⟨st2, s2, blk2, hg2, hl2, ⟨v1, v2, rfl, hv1, hv2⟩, hd2, hE1i, hiL2, hli2, hsq2, hlt2, hswf2, hW2⟩ :=
     greedy_generic (ProbeW.dhpProbeW ws mmN E1 e2I.toNat true (A.drop L))
-      ((callee_loop% bdhp_Parse 1) grow lcs e1I { arr := A, len := E1 + 7 } { arr := A, len := L } mm) absB (InvB s)
+      ((callee_loop% bdhp_Parse_nilable 1) grow lcs e1I { arr := A, len := E1 + 7 } { arr := A, len := L } mm) absB (InvB s)
       grow A L E1 E1 (E1 + 1) e2I.toNat (Nat.le_refl _) hEL hLA
       (fun fuel ia s blk lia h => by unfold_head; rw [if_neg (by omega)])
       (fun fuel i li ia lia s' blk hinv hia hlia hlo hi hli hf => by
